@@ -5,14 +5,19 @@ namespace Desync.SparseConc
 /-- the reader an event belongs to -/
 def Ev.reader : Ev → Nat
   | .start r _ => r
+  | .preload r _ => r
   | .acquire r => r
+  | .ready r => r
   | .check r => r
   | .fetchOk r => r
   | .fetchFail r => r
+  | .dataFail r => r
   | .write r => r
+  | .writeFail r => r
   | .mark r => r
   | .release r => r
   | .read r => r
+  | .loaded r => r
 
 /-- the chunk whose mutex a reader in this state holds -/
 def PC.holds : PC → Option Nat
@@ -21,6 +26,7 @@ def PC.holds : PC → Option Nat
   | .fetched _ _ i => some i
   | .written _ _ i => some i
   | .marked _ _ i => some i
+  | .failed _ i => some i
   | _ => none
 
 /-- the requested range of an active reader -/
@@ -44,11 +50,12 @@ def PC.pending : PC → List Nat
   | .marked _ todo _ => todo
   | _ => []
 
-/-- the chunk this reader is loading: store call issued, done bit not yet set -/
+/-- the chunk this reader is loading (store call issued, done bit not yet set) or has failed to load -/
 def PC.loading : PC → Option Nat
   | .fetching _ _ i => some i
   | .fetched _ _ i => some i
   | .written _ _ i => some i
+  | .failed _ i => some i
   | _ => none
 
 /-- the chunk this reader has written into the cache file -/
@@ -278,6 +285,11 @@ theorem inv_acquire (s s' : St) (r : Nat) (h : Inv s) (hs : step s (.acquire r) 
           rw [hr] at hpc; cases hpc
           simp [PC.holds] at hh'
     · simp at hs
+  · simp at hs
+
+theorem inv_ready (s s' : St) (r : Nat) (h : Inv s) (hs : step s (.ready r) = some s') : Inv s' := by
+  simp only [step] at hs
+  split at hs
   · rename_i range hr
     injection hs with hs; subst hs
     have g := h.good r _ hr
@@ -293,6 +305,38 @@ theorem inv_acquire (s s' : St) (r : Nat) (h : Inv s) (hs : step s (.acquire r) 
     · simp [PC.wrote]
     · simp [PC.loading]
     · simp
+  · simp at hs
+
+theorem inv_preload (s s' : St) (r i : Nat) (h : Inv s) (hs : step s (.preload r i) = some s') : Inv s' := by
+  simp only [step] at hs
+  split at hs
+  · rename_i hr
+    split at hs
+    · rename_i hi
+      injection hs with hs; subst hs
+      refine inv_setR s h r _ _ hr ?_ (by simp [PC.holds])
+      constructor
+      · simp [PC.holds]
+      · intro j hj
+        simp only [PC.range, PC.pending, PC.holds] at hj
+        rcases hj with hj | hj | hj
+        · simp at hj
+        · simp at hj; omega
+        · simp at hj
+      · simp [PC.range]
+      · simp [PC.wrote]
+      · simp [PC.loading]
+      · simp
+    · simp at hs
+  · simp at hs
+
+theorem inv_loaded (s s' : St) (r : Nat) (h : Inv s) (hs : step s (.loaded r) = some s') : Inv s' := by
+  simp only [step] at hs
+  split at hs
+  · rename_i hr
+    injection hs with hs; subst hs
+    refine inv_setR s h r _ _ hr ?_ (by simp [PC.holds])
+    constructor <;> simp [PC.holds, PC.range, PC.pending, PC.wrote, PC.loading]
   · simp at hs
 
 /-- `r` releases the mutex of chunk `i` and moves to a state that holds nothing -/
@@ -330,16 +374,15 @@ theorem inv_check (s s' : St) (r : Nat) (h : Inv s) (hs : step s (.check r) = so
     split at hs
     · rename_i hd
       injection hs with hs; subst hs
-      refine inv_unlock s h r _ _ i hr (by simp [PC.holds]) (by simp [PC.holds]) ?_
-      constructor
-      · simp [PC.holds]
+      refine inv_setR s h r _ _ hr ?_ (by simp [PC.holds])
+      refine ⟨g.holder, ?_, ?_, ?_, by simp [PC.loading], by simp⟩
       · intro j hj
         apply g.bound j
         simp only [PC.range, PC.pending, PC.holds, List.mem_cons] at hj ⊢
         rcases hj with hj | hj | hj
         · exact Or.inl hj
         · exact Or.inr (Or.inl (Or.inr hj))
-        · simp at hj
+        · exact Or.inr (Or.inr hj)
       · intro j hj
         rcases g.range_ok j hj with h1 | h1
         · simp only [PC.pending, List.mem_cons] at h1 ⊢
@@ -347,9 +390,9 @@ theorem inv_check (s s' : St) (r : Nat) (h : Inv s) (hs : step s (.check r) = so
           · exact Or.inr (Or.inr hd)
           · exact Or.inl h1
         · exact Or.inr h1
-      · simp [PC.wrote]
-      · simp [PC.loading]
-      · simp
+      · intro j hj
+        simp only [PC.wrote, Option.some.injEq] at hj; subst hj
+        exact h.done_pop _ hd
     · rename_i hd
       injection hs with hs; subst hs
       refine inv_setR s h r _ _ hr ?_ (by simp [PC.holds])
@@ -369,13 +412,45 @@ theorem inv_fetchOk (s s' : St) (r : Nat) (h : Inv s) (hs : step s (.fetchOk r) 
     exact ⟨g.holder, g.bound, g.range_ok, by simp [PC.wrote], g.fresh, by simp⟩
   · simp at hs
 
+/-- a load fails: the reader keeps the mutex and the chunk stays not done -/
+theorem good_failed (s : St) (r i : Nat) (range : List Nat) (pc : PC) (g : Good s r pc)
+    (hh : pc.holds = some i) (hl : pc.loading = some i) : Good s r (.failed range i) := by
+  refine ⟨?_, ?_, by simp [PC.range], by simp [PC.wrote], ?_, by simp⟩
+  · intro j hj
+    simp only [PC.holds, Option.some.injEq] at hj; subst hj
+    exact g.holder _ hh
+  · intro j hj
+    simp only [PC.range, PC.pending, PC.holds] at hj
+    rcases hj with hj | hj | hj
+    · simp at hj
+    · simp at hj
+    · simp at hj; subst hj; exact g.bound _ (Or.inr (Or.inr hh))
+  · intro j hj
+    simp only [PC.loading, Option.some.injEq] at hj; subst hj
+    exact g.fresh _ hl
+
 theorem inv_fetchFail (s s' : St) (r : Nat) (h : Inv s) (hs : step s (.fetchFail r) = some s') : Inv s' := by
   simp only [step] at hs
   split at hs
   · rename_i range todo i hr
     injection hs with hs; subst hs
-    refine inv_unlock s h r _ _ i hr (by simp [PC.holds]) (by simp [PC.holds]) ?_
-    constructor <;> simp [PC.holds, PC.range, PC.pending, PC.wrote, PC.loading]
+    exact inv_setR s h r _ _ hr (good_failed s r i range _ (h.good r _ hr) rfl rfl) (by simp [PC.holds])
+  · simp at hs
+
+theorem inv_dataFail (s s' : St) (r : Nat) (h : Inv s) (hs : step s (.dataFail r) = some s') : Inv s' := by
+  simp only [step] at hs
+  split at hs
+  · rename_i range todo i hr
+    injection hs with hs; subst hs
+    exact inv_setR s h r _ _ hr (good_failed s r i range _ (h.good r _ hr) rfl rfl) (by simp [PC.holds])
+  · simp at hs
+
+theorem inv_writeFail (s s' : St) (r : Nat) (h : Inv s) (hs : step s (.writeFail r) = some s') : Inv s' := by
+  simp only [step] at hs
+  split at hs
+  · rename_i range todo i hr
+    injection hs with hs; subst hs
+    exact inv_setR s h r _ _ hr (good_failed s r i range _ (h.good r _ hr) rfl rfl) (by simp [PC.holds])
   · simp at hs
 
 theorem inv_release (s s' : St) (r : Nat) (h : Inv s) (hs : step s (.release r) = some s') : Inv s' := by
@@ -393,6 +468,10 @@ theorem inv_release (s s' : St) (r : Nat) (h : Inv s) (hs : step s (.release r) 
     · exact Or.inl hj
     · exact Or.inr (Or.inl hj)
     · simp at hj
+  · rename_i range i hr
+    injection hs with hs; subst hs
+    refine inv_unlock s h r _ _ i hr (by simp [PC.holds]) (by simp [PC.holds]) ?_
+    constructor <;> simp [PC.holds, PC.range, PC.pending, PC.wrote, PC.loading]
   · simp at hs
 
 theorem inv_read (s s' : St) (r : Nat) (h : Inv s) (hs : step s (.read r) = some s') : Inv s' := by
@@ -498,11 +577,16 @@ theorem inv_mark (s s' : St) (r : Nat) (h : Inv s) (hs : step s (.mark r) = some
 theorem inv_step (s s' : St) (e : Ev) (h : Inv s) (hs : step s e = some s') : Inv s' := by
   cases e with
   | start r range => exact inv_start s s' r range h hs
+  | preload r i => exact inv_preload s s' r i h hs
   | acquire r => exact inv_acquire s s' r h hs
+  | ready r => exact inv_ready s s' r h hs
   | check r => exact inv_check s s' r h hs
   | fetchOk r => exact inv_fetchOk s s' r h hs
   | fetchFail r => exact inv_fetchFail s s' r h hs
+  | dataFail r => exact inv_dataFail s s' r h hs
   | write r => exact inv_write s s' r h hs
+  | writeFail r => exact inv_writeFail s s' r h hs
+  | loaded r => exact inv_loaded s s' r h hs
   | mark r => exact inv_mark s s' r h hs
   | release r => exact inv_release s s' r h hs
   | read r => exact inv_read s s' r h hs
@@ -574,6 +658,7 @@ theorem holder_enabled (s : St) (r i : Nat) (pc : PC) (hr : s.readers[r]? = some
   | fetched range todo j => exact ⟨.write r, _, rfl, by simp only [step, hr]; rfl⟩
   | written range todo j => exact ⟨.mark r, _, rfl, by simp only [step, hr]; rfl⟩
   | marked range todo j => exact ⟨.release r, _, rfl, by simp only [step, hr]; rfl⟩
+  | failed range j => exact ⟨.release r, _, rfl, by simp only [step, hr]; rfl⟩
 
 /-- **no deadlock / no lost wake-up**: in every reachable state, every reader that is neither idle
     nor returned has an enabled event of its own, unless it waits (state `want range (i :: todo)`)
@@ -598,9 +683,10 @@ theorem no_deadlock (isNull : List Bool) (k : Nat) (s : St) (h : Reachable (St.i
     | fetched range todo j => exact Or.inl (holder_enabled s r j _ hr rfl)
     | written range todo j => exact Or.inl (holder_enabled s r j _ hr rfl)
     | marked range todo j => exact Or.inl (holder_enabled s r j _ hr rfl)
+    | failed range j => exact Or.inl (holder_enabled s r j _ hr rfl)
     | want range todo =>
       cases todo with
-      | nil => exact Or.inl ⟨.acquire r, _, rfl, by simp only [step, hr]; rfl⟩
+      | nil => exact Or.inl ⟨.ready r, _, rfl, by simp only [step, hr]; rfl⟩
       | cons i todo =>
         cases hl : s.lock.getD i none with
         | none => exact Or.inl ⟨.acquire r, _, rfl, by simp only [step, hr, hl]; rfl⟩
@@ -631,13 +717,45 @@ theorem range_populated (isNull : List Bool) (k : Nat) (s : St) (h : Reachable (
   · exact hI.null_pop j h1
   · exact hI.done_pop j h1
 
-/-- retry, part 1: a failed store call leaves the chunk not done and its mutex free, and the reader
-    returns an error (never a successful read) -/
-theorem fetchFail_not_done (isNull : List Bool) (k : Nat) (s s' : St)
-    (h : Reachable (St.init isNull k) s) (r i : Nat) (range todo : List Nat)
-    (hr : s.readers[r]? = some (.fetching range todo i)) (hs : step s (.fetchFail r) = some s') :
-    s'.done.getD i false = false ∧ s'.lock.getD i none = none ∧
-    s'.readers[r]? = some (.returned false range false) := by
+/-- retry, part 1a: each way a load can fail (store call, `Data()`, opening or writing the cache file)
+    puts the reader into `failed` for the chunk it was loading, with everything else unchanged -/
+theorem fail_to_failed (s s' : St) (r : Nat) (e : Ev)
+    (he : e = .fetchFail r ∨ e = .dataFail r ∨ e = .writeFail r) (hs : step s e = some s') :
+    ∃ pc range i, s.readers[r]? = some pc ∧ pc.loading = some i ∧ pc.range = range ∧
+      s'.readers[r]? = some (.failed range i) ∧
+      s'.done = s.done ∧ s'.lock = s.lock ∧ s'.populated = s.populated := by
+  have hset : ∀ pc pc', s.readers[r]? = some pc → (setR s r pc').readers[r]? = some pc' := by
+    intro pc pc' hr
+    have hrl : r < s.readers.length := by
+      rcases Nat.lt_or_ge r s.readers.length with h' | h'
+      · exact h'
+      · simp [List.getElem?_eq_none h'] at hr
+    show (s.readers.set r _)[r]? = _
+    simp [hrl]
+  rcases he with rfl | rfl | rfl <;> simp only [step] at hs <;> split at hs
+  · rename_i range todo i hr
+    injection hs with hs; subst hs
+    exact ⟨_, range, i, hr, rfl, rfl, hset _ _ hr, rfl, rfl, rfl⟩
+  · simp at hs
+  · rename_i range todo i hr
+    injection hs with hs; subst hs
+    exact ⟨_, range, i, hr, rfl, rfl, hset _ _ hr, rfl, rfl, rfl⟩
+  · simp at hs
+  · rename_i range todo i hr
+    injection hs with hs; subst hs
+    exact ⟨_, range, i, hr, rfl, rfl, hset _ _ hr, rfl, rfl, rfl⟩
+  · simp at hs
+
+/-- retry, part 1b: in every reachable state a reader whose load of chunk `i` failed sees the chunk
+    not done; its `release` is enabled and leaves the chunk not done, the mutex free, and the reader
+    returning an error (never a successful read) -/
+theorem failed_not_done (isNull : List Bool) (k : Nat) (s : St)
+    (h : Reachable (St.init isNull k) s) (r i : Nat) (range : List Nat)
+    (hr : s.readers[r]? = some (.failed range i)) :
+    s.done.getD i false = false ∧
+    ∃ s', step s (.release r) = some s' ∧
+      s'.done.getD i false = false ∧ s'.lock.getD i none = none ∧
+      s'.readers[r]? = some (.returned false range false) := by
   have hI := inv_reachable isNull k s h
   have g := hI.good r _ hr
   have hlk := g.holder i rfl
@@ -646,13 +764,30 @@ theorem fetchFail_not_done (isNull : List Bool) (k : Nat) (s s' : St)
     rcases Nat.lt_or_ge r s.readers.length with h' | h'
     · exact h'
     · simp [List.getElem?_eq_none h'] at hr
-  simp only [step, hr] at hs
-  injection hs with hs; subst hs
-  refine ⟨g.fresh i rfl, ?_, ?_⟩
+  refine ⟨g.fresh i rfl, { setR s r (.returned false range false) with lock := s.lock.set i none },
+    by simp only [step, hr], g.fresh i rfl, ?_, ?_⟩
   · show (s.lock.set i none).getD i none = none
     rw [getD_set]; simp [hil]
   · show (s.readers.set r _)[r]? = _
     simp [hrl]
+
+/-- retry, part 3: a reader that finds the chunk not done under the mutex fetches it (again) -/
+theorem check_undone_fetches (s : St) (r i : Nat) (range todo : List Nat)
+    (hr : s.readers[r]? = some (.locked range todo i)) (hd : s.done.getD i false = false) :
+    step s (.check r) = some (setR s r (.fetching range todo i)) := by
+  simp only [step, hr, hd]; rfl
+
+/-- a strictly replayed trace ends in a reachable state -/
+theorem replay_reachable (s0 s s' : St) (es : List Ev) (h : Reachable s0 s)
+    (hr : replay s es = some s') : Reachable s0 s' := by
+  induction es generalizing s with
+  | nil => simp only [replay] at hr; injection hr with hr; subst hr; exact h
+  | cons e es ih =>
+    simp only [replay] at hr
+    split at hr
+    · rename_i s1 hs
+      exact ih s1 (Reachable.step e h hs) hr
+    · simp at hr
 
 /-- retry, part 2: a reader that starts while a non-null chunk of its range is not done puts that
     chunk on its to-do list (it will load it, not be served the unpopulated range) -/
